@@ -147,6 +147,10 @@ pub struct Foreign {
     pub sample_seps: Vec<String>,
     /// Text formats: whitespace after the last sample.
     pub trailing: String,
+    /// Minimum width of each decimal token (width, height, maxval, then text samples),
+    /// cycled; shorter tokens are padded with leading zeros. Empty = no padding.
+    #[serde(default)]
+    pub zero_pad: Vec<u8>,
 }
 
 impl Foreign {
@@ -183,15 +187,30 @@ impl Foreign {
         t
     }
     pub fn render(&self) -> Vec<u8> {
+        self.render_parts().0
+    }
+    /// The file and the offset of its first raster byte.
+    pub fn render_parts(&self) -> (Vec<u8>, usize) {
+        let mut tok = 0usize;
+        let mut num = |out: &mut Vec<u8>, v: u32| {
+            let s = v.to_string();
+            let w = if self.zero_pad.is_empty() { 0 } else { self.zero_pad[tok % self.zero_pad.len()] as usize };
+            tok += 1;
+            for _ in s.len()..w {
+                out.push(b'0');
+            }
+            out.extend_from_slice(s.as_bytes());
+        };
         let mut out = Vec::new();
         out.extend_from_slice(format!("P{}", self.fmt).as_bytes());
         out.extend_from_slice(&self.sep0);
-        out.extend_from_slice(self.w.to_string().as_bytes());
+        num(&mut out, self.w);
         out.extend_from_slice(&self.sep1);
-        out.extend_from_slice(self.h.to_string().as_bytes());
+        num(&mut out, self.h);
         out.extend_from_slice(&self.sep2);
-        out.extend_from_slice(self.max.to_string().as_bytes());
+        num(&mut out, self.max);
         out.push(self.pre_raster);
+        let hl = out.len();
         let s = self.samples();
         if self.is_text() {
             for (i, v) in s.iter().enumerate() {
@@ -199,23 +218,17 @@ impl Foreign {
                     let sep = &self.sample_seps[(i - 1) % self.sample_seps.len()];
                     out.extend_from_slice(sep.as_bytes());
                 }
-                out.extend_from_slice(v.to_string().as_bytes());
+                num(&mut out, *v as u32);
             }
             out.extend_from_slice(self.trailing.as_bytes());
         } else {
             out.extend_from_slice(&s);
         }
-        out
+        (out, hl)
     }
     /// Offset of the first raster byte.
     pub fn header_len(&self) -> usize {
-        2 + self.sep0.len()
-            + self.w.to_string().len()
-            + self.sep1.len()
-            + self.h.to_string().len()
-            + self.sep2.len()
-            + self.max.to_string().len()
-            + 1
+        self.render_parts().1
     }
 }
 
@@ -231,6 +244,9 @@ pub struct RefHeader {
     pub max: u32,
     /// Offset of the first byte after the single whitespace that ends the header.
     pub raster: usize,
+    /// A field is spelled with leading zeros: the value is unambiguous, but refusing
+    /// such a spelling is defensible.
+    pub soft: bool,
 }
 
 #[derive(Clone, Debug, PartialEq, Eq)]
@@ -247,6 +263,9 @@ pub enum RefBody {
 pub struct RefPnm {
     pub header: Option<RefHeader>,
     pub body: RefBody,
+    /// "Soft" acceptance: if the decoder answers `Ok`, it must be this image, but an
+    /// error is tolerated (zero-padded numerals, bytes after a complete binary raster).
+    pub soft: bool,
 }
 
 fn is_ws(b: u8) -> bool {
@@ -281,16 +300,25 @@ fn skip_sep(b: &[u8], mut i: usize) -> Option<usize> {
     (i > start).then_some(i)
 }
 
-fn field(b: &[u8], i: usize) -> Option<(u32, usize)> {
+/// Decimal field: at most 12 characters, at most 9 significant digits. The flag says
+/// whether it carries leading zeros.
+fn field(b: &[u8], i: usize) -> Option<(u32, usize, bool)> {
     let mut j = i;
     while j < b.len() && b[j].is_ascii_digit() {
         j += 1;
     }
-    if j == i || j - i > 9 {
+    if j == i || j - i > 12 {
         return None;
     }
-    let v = std::str::from_utf8(&b[i..j]).ok()?.parse::<u32>().ok()?;
-    Some((v, j))
+    let mut k = i;
+    while k + 1 < j && b[k] == b'0' {
+        k += 1;
+    }
+    if j - k > 9 {
+        return None;
+    }
+    let v = std::str::from_utf8(&b[k..j]).ok()?.parse::<u32>().ok()?;
+    Some((v, j, k > i))
 }
 
 pub fn ref_header(b: &[u8]) -> Option<RefHeader> {
@@ -299,31 +327,32 @@ pub fn ref_header(b: &[u8]) -> Option<RefHeader> {
     }
     let fmt = b[1] - b'0';
     let i = skip_sep(b, 2)?;
-    let (w, i) = field(b, i)?;
+    let (w, i, p0) = field(b, i)?;
     let i = skip_sep(b, i)?;
-    let (h, i) = field(b, i)?;
-    let (max, i) = if fmt == 4 {
-        (1, i)
+    let (h, i, p1) = field(b, i)?;
+    let (max, i, p2) = if fmt == 4 {
+        (1, i, false)
     } else {
         let i = skip_sep(b, i)?;
-        let (m, i) = field(b, i)?;
+        let (m, i, p) = field(b, i)?;
         if m == 0 || m > 65535 {
             return None;
         }
-        (m, i)
+        (m, i, p)
     };
     // exactly one whitespace byte, then the raster
     if !is_ws(*b.get(i)?) {
         return None;
     }
-    Some(RefHeader { fmt, w, h, max, raster: i + 1 })
+    Some(RefHeader { fmt, w, h, max, raster: i + 1, soft: p0 || p1 || p2 })
 }
 
 pub fn ref_pnm(b: &[u8]) -> RefPnm {
     use RefBody::*;
     let Some(hd) = ref_header(b) else {
-        return RefPnm { header: None, body: Unsure("header outside the grammar") };
+        return RefPnm { header: None, body: Unsure("header outside the grammar"), soft: false };
     };
+    let mut soft = hd.soft;
     let body = (|| {
         if hd.fmt == 4 {
             return Unsure("P4 is not covered by the property");
@@ -338,10 +367,13 @@ pub fn ref_pnm(b: &[u8]) -> RefPnm {
         let n = hd.w as u64 * hd.h as u64 * if grey { 1 } else { 3 };
         let raster = &b[hd.raster..];
         let samples: Vec<u8> = if hd.fmt >= 5 {
-            if raster.len() as u64 != n {
-                return Unsure("binary raster length differs from the header's");
+            if (raster.len() as u64) < n {
+                return Unsure("binary raster shorter than the header says");
             }
-            raster.to_vec()
+            if raster.len() as u64 > n {
+                soft = true;
+            }
+            raster[..n as usize].to_vec()
         } else {
             let mut v = Vec::new();
             let mut i = 0;
@@ -356,8 +388,15 @@ pub fn ref_pnm(b: &[u8]) -> RefPnm {
                 while i < raster.len() && raster[i].is_ascii_digit() {
                     i += 1;
                 }
-                if i == s || i - s > 3 {
+                let mut k = s;
+                while k + 1 < i && raster[k] == b'0' {
+                    k += 1;
+                }
+                if i == s || i - s > 12 || i - k > 3 {
                     return Unsure("text raster token is not a short decimal");
+                }
+                if k > s {
+                    soft = true;
                 }
                 if i < raster.len() && !is_ws(raster[i]) {
                     return Unsure("text raster token followed by a non-whitespace byte");
@@ -385,7 +424,8 @@ pub fn ref_pnm(b: &[u8]) -> RefPnm {
             Rgb(samples.chunks_exact(3).map(|c| [c[0], c[1], c[2]]).collect())
         }
     })();
-    RefPnm { header: Some(hd), body }
+    let soft = soft && !matches!(body, Unsure(_));
+    RefPnm { header: Some(hd), body, soft }
 }
 
 /// For oracle A: does `stored` start with a P6 encoding (`maxval` 255) of exactly this
